@@ -110,16 +110,19 @@ func (s *Store) Delete(key string) error {
 func filterQuery(q string, prefixes []string, notPrefixes []string) (string, []interface{}) {
 	conds := []string{}
 	args := []interface{}{}
+	// instr(name, ?) = 1 is "name starts with ?" exactly: case-sensitive and with
+	// no wildcard meaning for any character (LIKE treats % and _ as wildcards and
+	// folds ASCII case)
 	for _, s := range prefixes {
-		conds = append(conds, "name LIKE ?")
-		args = append(args, s+"%")
+		conds = append(conds, "instr(name, ?) = 1")
+		args = append(args, s)
 	}
 	if len(conds) > 1 {
 		conds = []string{fmt.Sprintf("(%s)", strings.Join(conds, " OR "))}
 	}
 	for _, s := range notPrefixes {
-		conds = append(conds, "name NOT LIKE ?")
-		args = append(args, s+"%")
+		conds = append(conds, "instr(name, ?) != 1")
+		args = append(args, s)
 	}
 	if len(conds) > 0 {
 		q = fmt.Sprintf("%s WHERE %s", q, strings.Join(conds, " AND "))
